@@ -653,3 +653,39 @@ Example C13_ex_dropped_moves_pending_conf_index :
     r_pending_conf_index (ex_raft 1 false []) = 0 /\ r_pending_conf_index r' = 5 /\
     r_msgs r' = [] /\ r_log r' = r_log (ex_raft 1 false []).
 Proof. eexists. split; [vm_compute; reflexivity|]. vm_compute. repeat split. Qed.
+
+
+(* ====================================================================== *)
+(* ==== node level: append_entries_contiguous without LogInv ============ *)
+(* ====================================================================== *)
+(* C13_append_entries_contiguous above takes LogInv (r_log r) at the call of
+   maybe_send_append.  With M/RaftProofsRepInv.v (Props/C14.v, node level) the log
+   invariant holds at every state of every contract-abiding trace from RawNode::new. *)
+From RV Require Import M.RaftLogProofs M.RaftProofsC15 M.RaftProofsC09 M.RaftProofsC08 M.RaftProofsC07
+  M.RaftProofsRepInv.
+
+(* LogOK in place of LogInv *)
+Theorem C13_append_entries_contiguous_node :
+  forall r to pr ae r' pr' m,
+  LogOK r -> r_batch_append r = false ->
+  maybe_send_append r to pr ae = Ok (r', pr', true) ->
+  r_msgs r' = r_msgs r ++ [m] -> m_type m = MsgAppend ->
+  contiguous_from (m_index m + 1) (m_entries m) /\
+  from_log (r_log r) (m_index m + 1) (m_entries m) /\
+  (r_max_msg_size r <> NO_LIMIT ->
+     total_size entry_size (m_entries m) <= r_max_msg_size r \/ length (m_entries m) = 1%nat).
+Proof. exact append_entries_contiguous_node. Qed.
+Print Assumptions C13_append_entries_contiguous_node.
+
+(* at any state of a trace from RawNode::new *)
+Theorem C13_append_entries_contiguous_from_new :
+  forall c st sa dr n0 n to pr ae r' pr' m,
+  rn_new c st sa dr = Ok (inr n0) -> SInv st -> trig_log st = false -> wrun n0 n ->
+  r_batch_append (rn_raft n) = false ->
+  maybe_send_append (rn_raft n) to pr ae = Ok (r', pr', true) ->
+  r_msgs r' = r_msgs (rn_raft n) ++ [m] -> m_type m = MsgAppend ->
+  contiguous_from (m_index m + 1) (m_entries m) /\
+  from_log (nlog n) (m_index m + 1) (m_entries m).
+Proof. exact append_entries_contiguous_from_new. Qed.
+Print Assumptions C13_append_entries_contiguous_from_new.
+
